@@ -7,7 +7,7 @@
 From Coq Require Import ZArith QArith Qround Qabs List Bool Arith Lia Lqa Permutation.
 From VL Require Import Prelude.PyDict Model.GetNBest Model.Convert Model.Cardinal
      Proofs.GetNBest_proofs Proofs.QOrd Proofs.Dict_proofs Proofs.MJ_proofs Proofs.MJ_removal_proofs Proofs.MJ_seats_proofs
-     Proofs.ScoreDict_proofs Proofs.Truncation_proofs Proofs.Scale2Med_proofs Proofs.Repair_proofs Proofs.TruncRepair_proofs.
+     Proofs.ScoreDict_proofs Proofs.Truncation_proofs Proofs.Scale2Dup_proofs Proofs.Scale2Med_proofs Proofs.Repair_proofs Proofs.TruncRepair_proofs.
 Import ListNotations.
 Open Scope Q_scope.
 
@@ -618,4 +618,146 @@ Proof.
       match goal with |- context [mj_default ?F sub (S k)] => set (fuel := F) end.
       destruct (mj_default fuel sub (S k)) as [r'|e] eqn:Er; [|discriminate].
       rewrite (mj_default_x_conservative rp fuel sub (S k) Hwf ltac:(lia)); [rewrite Er; intros H; exact H|rewrite Er; discriminate].
+Qed.
+
+(* ================================================================ the fuel of the evaluator is enough *)
+(* the number of scores held by the candidates of the contest goes down in every pass of the repaired loop *)
+Definition stot (sub : list (C * cscores)) : Z := fold_left Z.add (map (fun cd : C * cscores => cs_total (snd cd)) sub) 0%Z.
+
+Lemma stot_cons cd sub : stot (cd :: sub) = (cs_total (snd cd) + stot sub)%Z.
+Proof. unfold stot. cbn [map fold_left]. rewrite fold_add_shift. lia. Qed.
+
+Lemma ok_total_nonneg cd : cs_ok cd -> (0 <= cs_total (snd cd))%Z.
+Proof. intros (Hn & _). apply cs_total_nonneg, Hn. Qed.
+
+Lemma stot_nonneg sub : Forall cs_ok sub -> (0 <= stot sub)%Z.
+Proof. induction 1 as [|cd sub Hcd _ IH]; [unfold stot; cbn; lia|]. rewrite stot_cons. pose proof (ok_total_nonneg cd Hcd). lia. Qed.
+
+Lemma stot_filter_le (f : C * cscores -> bool) sub : Forall cs_ok sub -> (stot (filter f sub) <= stot sub)%Z.
+Proof.
+  induction 1 as [|cd sub Hcd _ IH]; [cbn; lia|]. cbn [filter]. pose proof (ok_total_nonneg cd Hcd).
+  destruct (f cd); rewrite !stot_cons; lia.
+Qed.
+
+Lemma stot_filter_drop (f : C * cscores -> bool) sub cd : Forall cs_ok sub -> In cd sub -> f cd = false ->
+  (stot (filter f sub) + cs_total (snd cd) <= stot sub)%Z.
+Proof.
+  induction 1 as [|cd0 sub Hcd Hsub IH]; intros Hin Hf; [destruct Hin|]. cbn [filter]. pose proof (ok_total_nonneg cd0 Hcd).
+  destruct Hin as [->|Hin].
+  - rewrite Hf, stot_cons. pose proof (stot_filter_le f sub Hsub). lia.
+  - specialize (IH Hin Hf). destruct (f cd0); rewrite !stot_cons; lia.
+Qed.
+
+Lemma stot_live sub : stot (mj_live sub) = stot sub.
+Proof.
+  unfold mj_live. induction sub as [|cd sub IH]; [reflexivity|]. cbn [filter]. destruct (cs_total (snd cd) =? 0)%Z eqn:E; cbn [negb].
+  - apply Z.eqb_eq in E. rewrite stot_cons, IH. lia.
+  - rewrite !stot_cons, IH. reflexivity.
+Qed.
+
+Lemma stot_remove sub medians ch : stot (mj_remove sub medians ch) = (stot sub - ch * Z.of_nat (length sub))%Z.
+Proof.
+  unfold mj_remove. induction sub as [|cd sub IH]; [unfold stot; cbn; lia|]. cbn [map]. rewrite !stot_cons, IH. cbn [snd length].
+  rewrite cs_total_set, Nat2Z.inj_succ. lia.
+Qed.
+
+Lemma get_n_best_zero (medians : list (C * Q)) : get_n_best Qle_bool medians 0 = [].
+Proof.
+  unfold get_n_best. destruct (sort_desc Qle_bool medians) as [|[c1 thr] s]; [reflexivity|].
+  cbn [length Nat.ltb Nat.leb Nat.sub nth_error]. unfold eqv. rewrite Scale2Dup_proofs.Qle_bool_refl. cbn [andb first_eq_index snd].
+  unfold eqv. rewrite Scale2Dup_proofs.Qle_bool_refl. reflexivity.
+Qed.
+
+Theorem mj_default_x_fuel rp : rp_mj rp = true -> forall fuel sub n, mj_wf sub -> (Z.to_nat (stot sub) < fuel)%nat ->
+  mj_default_x rp fuel sub n <> inr SE_fuel.
+Proof.
+  intros Hrp. induction fuel as [|f IH]; intros sub0 n Hwf0 Hfuel; [lia|].
+  rewrite (mj_default_x_unfold rp f sub0 n Hrp).
+  destruct (fold_left Z.max (map (fun cd : C * cscores => cs_total (snd cd)) sub0) 0%Z <=? 0)%Z; [discriminate|].
+  destruct (Nat.ltb (length (mj_live sub0)) n); [discriminate|].
+  pose proof (mj_wf_live sub0 Hwf0) as Hwf. pose proof (stot_live sub0) as Hsl. set (sub := mj_live sub0) in *. destruct Hwf as (Hnd & Hok).
+  rewrite (aggregate_x_ok rp _ _ Hok).
+  destruct (aggregate FMedianLow sub) as [medians|e] eqn:Ea.
+  2:{ destruct (mj_live_medians sub0 (proj2 Hwf0)) as (m' & Em). fold sub in Em. congruence. }
+  cbv zeta. pose proof (aggregate_keys _ _ _ Ea) as Hkeys. pose proof (stot_nonneg sub Hok) as Hs0.
+  assert (Hndm : NoDup (map fst medians)) by (rewrite Hkeys; exact Hnd).
+  destruct n as [|n'].
+  { rewrite get_n_best_zero. discriminate. }
+  destruct (gnb_cases medians (S n') (le_n_S _ _ (Nat.le_0_l n')) Hndm) as [(Hct & _)|(above & level & below & thr & k & Hp & _ & _ & _ & Hbest & Hlenb & Hk)].
+  - rewrite Hct. discriminate.
+  - rewrite Hbest, count_tie_app, filter_cand_app, map_length. cbn [Nat.eqb].
+    destruct (perm_parts _ _ _ _ Hndm Hp) as (Hnda & Hndl & Hlv).
+    assert (Hcase : above = [] \/ (0 <? length above)%nat = true) by (destruct above; [left; reflexivity|right; reflexivity]).
+    destruct Hcase as [->|Hpos].
+    + (* a shared lead: at least one score leaves each of the level candidates *)
+      cbn [length Nat.ltb Nat.leb map app repeat].
+      pose proof (mj_wf_round sub medians (map fst level) (conj Hnd Hok) Ea) as Hwf'.
+      apply IH; [exact Hwf'|].
+      unfold mj_round. rewrite stot_remove. pose proof (mj_ch_pos (mj_level sub (map fst level)) medians) as Hch.
+      pose proof (stot_filter_le (fun cd : C * cscores => cmem (fst cd) (map fst level)) sub Hok) as Hle. fold (mj_level sub (map fst level)) in Hle.
+      assert (Hge : (length level <= length (mj_level sub (map fst level)))%nat).
+      { apply keys_incl_length; [exact Hndl|]. intros c Hc. destruct (Hlv c Hc) as (Hm & _).
+        rewrite Hkeys in Hm. apply in_map_iff in Hm. destruct Hm as ([c0 d] & Hc0 & Hd). cbn [fst] in Hc0. subst c0.
+        apply in_map_iff. exists (c, d). split; [reflexivity|]. unfold mj_level. apply filter_In. split; [exact Hd|].
+        cbn [fst]. apply cmem_In, Hc. }
+      assert (Hl1 : (1 <= Z.of_nat (length (mj_level sub (map fst level))))%Z) by lia.
+      assert (Hs1 : (1 <= stot sub)%Z).
+      { destruct (mj_level sub (map fst level)) as [|cd l] eqn:El; [cbn [length] in Hl1; lia|].
+        assert (Hin : In cd sub).
+        { assert (H : In cd (mj_level sub (map fst level))) by (rewrite El; left; reflexivity). unfold mj_level in H. apply filter_In in H. tauto. }
+        pose proof (stot_filter_drop (fun _ => false) sub cd Hok Hin eq_refl) as Hd.
+        assert (Hnil : filter (fun _ : C * cscores => false) sub = []) by (clear; induction sub as [|x l IHl]; [reflexivity|exact IHl]).
+        rewrite Hnil in Hd. change (stot []) with 0%Z in Hd.
+        pose proof (proj1 (mj_live_in cd sub0) Hin) as (_ & Hnz). rewrite Forall_forall in Hok. pose proof (ok_total_nonneg _ (Hok _ Hin)). lia. }
+      assert (Hdec : (stot (mj_level sub (map fst level)) - mj_ch (mj_level sub (map fst level)) medians * Z.of_nat (length (mj_level sub (map fst level))) <= stot sub - 1)%Z) by nia.
+      lia.
+    + (* at least one candidate is seated outright and leaves the contest with its scores *)
+      rewrite Hpos.
+      assert (Hfn : firstn (length above) (map cand_of above ++ repeat (TieR (map fst level)) (S k)) = map cand_of above).
+      { rewrite <- (map_length (@cand_of C Q) above), firstn_app, firstn_all, Nat.sub_diag, firstn_O, app_nil_r. reflexivity. }
+      rewrite Hfn, cands_of_map.
+      set (sub' := filter (fun cd : C * cscores => negb (cmem (fst cd) (map fst above))) sub).
+      assert (Hlt : (stot sub' < stot sub)%Z).
+      { destruct above as [|[c0 v0] above']; [cbn in Hpos; discriminate|].
+        assert (Hc0 : In c0 (map fst sub)).
+        { rewrite <- Hkeys. apply in_map_iff. exists (c0, v0). split; [reflexivity|]. eapply Permutation_in; [exact Hp|]. left. reflexivity. }
+        apply in_map_iff in Hc0. destruct Hc0 as ([c1 d0] & Hc1 & Hd0). cbn [fst] in Hc1. subst c1.
+        assert (Hdrop : negb (cmem (fst (c0, d0)) (map fst ((c0, v0) :: above'))) = false).
+        { apply negb_false_iff, cmem_In. left. reflexivity. }
+        pose proof (stot_filter_drop (fun cd : C * cscores => negb (cmem (fst cd) (map fst ((c0, v0) :: above')))) sub (c0, d0) Hok Hd0 Hdrop) as Hd.
+        fold sub' in Hd. cbn [snd] in Hd.
+        pose proof (proj1 (mj_live_in (c0, d0) sub0) Hd0) as (_ & Hnz). rewrite Forall_forall in Hok. pose proof (ok_total_nonneg _ (Hok _ Hd0)) as H0.
+        cbn [snd] in *. lia. }
+      pose proof (mj_wf_filter (fun cd : C * cscores => negb (cmem (fst cd) (map fst above))) sub (conj Hnd Hok)) as Hwf'. fold sub' in Hwf'.
+      pose proof (stot_nonneg sub' (proj2 Hwf')) as Hs'.
+      pose proof (IH sub' (S n' - length above)%nat Hwf' ltac:(lia)) as Hrec.
+      destruct (mj_default_x rp f sub' (S n' - length above)) as [r|e]; [discriminate|]. intros [= ->]. apply Hrec. reflexivity.
+Qed.
+
+(* with the fuel the evaluator hands over (number of scores of the level candidates + 2) the loop ends by itself *)
+Theorem majority_judgment_x_answers_or_refuses rp plus cf votes n : rp_trunc rp = true -> rp_mj rp = true -> (1 <= n)%nat ->
+  profile_pos votes ->
+  match majority_judgment_x rp plus cf votes n with inl _ => True | inr e => e = SE_vse end.
+Proof.
+  intros Hrt Hrp Hn Hv. pose proof (majority_judgment_x_no_crash rp plus cf votes n Hrt Hrp Hn Hv) as H.
+  destruct (majority_judgment_x rp plus cf votes n) as [r|e] eqn:E; [exact I|].
+  destruct H as [H|H]; [exact H|exfalso]. subst e. revert E. unfold majority_judgment_x.
+  destruct (corrected_scores_x_held rp cf votes Hrt Hv) as (sc & Hsc & Hheld). rewrite Hsc.
+  assert (Hok : Forall cs_ok sc) by (apply Forall_forall; intros cd Hcd; exact (proj1 (Hheld cd Hcd))).
+  pose proof (corrected_scores_x_nodup _ _ _ _ Hsc) as Hnd.
+  rewrite (aggregate_x_ok rp _ _ Hok).
+  destruct (aggregate_total sc) as (med & Ea).
+  { intros cd Hcd. destruct (Hheld cd Hcd). apply aggregate_one_total; assumption. }
+  rewrite Ea. cbv zeta.
+  destruct (last_tie (get_n_best Qle_bool med n)) as [tied|]; [|discriminate].
+  set (sub := filter (fun cd : C * cscores => cmem (fst cd) tied) sc).
+  assert (Hwf : mj_wf sub) by (split; [apply filter_keys_NoDup_gen, Hnd|apply filter_ok, Hok]).
+  destruct plus.
+  - unfold mj_plus_x. destruct sub as [|[c0 d0] sub'] eqn:Es; [discriminate|].
+    assert (Hd0 : held (c0, d0)).
+    { apply Hheld. assert (H : In (c0, d0) sub) by (rewrite Es; left; reflexivity). unfold sub in H. apply filter_In in H. tauto. }
+    destruct (aggregate_one_x_total rp FMedianLow d0 (proj1 Hd0) (proj2 Hd0)) as (v & ->). discriminate.
+  - fold (stot sub). pose proof (mj_default_x_fuel rp Hrp (Z.to_nat (stot sub) + 2) sub (count_tie (get_n_best Qle_bool med n)) Hwf ltac:(lia)) as Hf.
+    destruct (mj_default_x rp (Z.to_nat (stot sub) + 2) sub (count_tie (get_n_best Qle_bool med n))) as [r|e]; [discriminate|].
+    intros [= ->]. apply Hf. reflexivity.
 Qed.
